@@ -48,6 +48,7 @@ def check_cfg(ctx, fx, cfg):
             ctx.viol("R06.2", "abort-all:%s@%s" % (name, cfg), v["msg"], fn=name, site=a["fn"]["loc"], trace=v["trace"])
         if not a["viols"]:
             ctx.ok("R06.2", "abort-all:%s@%s" % (name, cfg), a["fn"]["loc"], {"empties_list": a["removes"]})
+    check_timer_list(ctx, fx, cfg, ab, "R06.2", "R06.8")
     check_drop_aborts(ctx, fx, cfg, ab, "R06.2")
     if cfg != "bare":
         regs = timers.registrars(fx)
@@ -115,6 +116,24 @@ def check_cfg(ctx, fx, cfg):
     # R06.6 statics
     st = sorted(s["def"] for s in fx.d["statics"])
     ctx.require(st == ["actor::service::REGISTRY", "context::id::CONTEXT_ID"], "R06.6", "statics@" + cfg, "cross-actor shared state changed: statics are %s" % st, site="crate", detail=st)
+
+
+def check_timer_list(ctx, fx, cfg, ab, R_ATOMIC, R_ACCESS):
+    for name, a in ab.items():
+        # between taking a handle out of the list and aborting it there must be no suspension point: a fault or
+        # cancellation there would leak the timer (Context::drop would find the list empty)
+        is_sync = a["fn"]["kind"] in ("fn", "assoc_fn") and not a["fn"].get("is_async")
+        ctx.require(is_sync, R_ATOMIC, "abort-all-is-atomic:%s@%s" % (name, cfg), "timer handles are taken out of the context's list in an async body: a fault at an await in between leaks them", fn=name, site=a["fn"]["loc"])
+    # R06.8 who touches the timer list: the registrar (push), the abort-all functions (drain) and the constructor
+    touch = {}
+    for f in fx.d["fns"]:
+        b = ctx.body(fx, f)
+        for bi, where, name_, place in field_accesses(fx, f, b, "context::Context"):
+            if name_ == "tasks":
+                touch.setdefault(f.get("root", f["def"]), []).append(b.term(bi)["l"])
+    allowed = set(ab) | set(r for r in timers.registrars(fx) if r.startswith("context::"))
+    for fn_, locs in sorted(touch.items()):
+        ctx.require(fn_ in allowed, R_ACCESS, "timer-list-access:%s@%s" % (fn_, cfg), "the context's timer list is accessed outside the registrar and the abort-all function (handles moved elsewhere are not aborted when the actor dies)", fn=fn_, site=locs[0], detail={"sites": len(locs)})
 
 
 def check_drop_aborts(ctx, fx, cfg, ab, rule):
